@@ -118,7 +118,7 @@ func TestVtraceWorkload(t *testing.T) {
 	if planPath == "" {
 		t.Skip("only runs under tools/vtrace")
 	}
-	if !asmDetected {
+	if !zvAsmDetected {
 		t.Skip("accelerated path not available on this CPU")
 	}
 	runtime.LockOSThread()
@@ -148,10 +148,10 @@ func TestVtraceWorkload(t *testing.T) {
 	}
 	which := os.Getenv("VERIF_VT_ROUTINES") // comma list; empty = all
 	want := func(r string) bool {
-		if !asmDirectAvailable && (r == "sealAsm" || r == "openAsm") {
+		if !zvAsmDirectAvailable && (r == "sealAsm" || r == "openAsm") {
 			return false // their declarations are not the ones the monitors were written for (tag verifnoasm)
 		}
-		if !asmHelpersAvailable && (r == "copyAsm" || r == "needExpand") {
+		if !zvAsmHelpersAvailable && (r == "copyAsm" || r == "needExpand") {
 			return false // helper gone or declared differently on this tree (tag verifnohelpers)
 		}
 		return which == "" || strings.Contains(","+which+",", ","+r+",")
@@ -347,14 +347,14 @@ func TestVtraceWorkload(t *testing.T) {
 			}
 			a := cs[0]
 			sa := ref.NewGCM(a.key).Seal(a.nonce, a.pt, a.aad, g.tag)
-			ps = append(ps, probe{a, flipBit(sa, g.pl*8), "open-forged", "A:tag-first-bit"})
-			ps = append(ps, probe{a, flipBit(sa, len(sa)*8-1), "open-forged", "A:tag-last-bit"})
+			ps = append(ps, probe{a, zvFlipBit(sa, g.pl*8), "open-forged", "A:tag-first-bit"})
+			ps = append(ps, probe{a, zvFlipBit(sa, len(sa)*8-1), "open-forged", "A:tag-last-bit"})
 			if g.pl > 0 {
-				ps = append(ps, probe{a, flipBit(sa, 3), "open-forged", "A:ciphertext-bit"})
+				ps = append(ps, probe{a, zvFlipBit(sa, 3), "open-forged", "A:ciphertext-bit"})
 			}
 			b := cs[1]
 			sb := ref.NewGCM(b.key).Seal(b.nonce, b.pt, b.aad, g.tag)
-			ps = append(ps, probe{b, flipBit(sb, (g.pl+g.tag/2)*8), "open-forged", "B:tag-middle-bit"})
+			ps = append(ps, probe{b, zvFlipBit(sb, (g.pl+g.tag/2)*8), "open-forged", "B:tag-middle-bit"})
 			zr := cs[2]
 			ps = append(ps, probe{zr, make([]byte, g.pl+g.tag), "open-forged", "zero:all-zero-ciphertext"})
 			for _, p := range ps {
